@@ -1,8 +1,8 @@
 (** extraction of the C02 model: specifications, sign layer over the regenerated tables, and the
     word-level as-is models instantiated at the 64-bit word of the default build *)
 Require Import FastZ.
-From Dashu Require Import Base.Prelude Base.Words Int.DivSpec Int.DivWordModel Int.DivWordInst Int.DivNumModular Int.DivSrcInst Int.DivPrim Int.DivMemBase Int.DivMemModel Int.DivOwn Int.DivRemIdx.
-From DashuGen Require Import SignTables Params DivDispatch.
+From Dashu Require Import Base.Prelude Base.Words Int.DivSpec Int.DivWordModel Int.DivWordInst Int.DivNumModular Int.DivSrcInst Int.DivPrim Int.DivMemBase Int.DivMemModel Int.DivOwn Int.DivRemIdx Int.DivKernelsBase Int.DivConstNew Int.DivKernelsInst.
+From DashuGen Require Import SignTables Params DivDispatch DivKernelsGen DivReprGen.
 
 Definition m_repr_div_rem := i_repr_div_rem 64.
 Definition m_repr_div := i_repr_div 64.
@@ -34,7 +34,40 @@ Definition s64_rem_idx (m d : Z) : result Z :=
   if d <? 2 ^ 64 then rem_by_word_idx 64 (nm1by1 64) (nm2by1 64) (words_of 64 m) d
   else rem_by_dword_idx 64 (nm2by2 64) (nm3by2 64) (nm4by2 64) (words_of 64 m) d.
 
+(** round 4: the same models at the word size of the build under test (w = 64 default / release, w = 32 force_bits="32") *)
+Definition w_repr_div_rem (w : Z) := s_repr_div_rem w.
+Definition w_repr_div (w : Z) := s_repr_div w.
+Definition w_repr_rem (w : Z) := s_repr_rem w.
+Definition w_const_div_rem (w : Z) := s_const_div_rem w.
+Definition w_const_rem (w : Z) := s_const_rem w.
+Definition w_kernel_asis (w : Z) := s_kernel_asis w.
+Definition wx_repr_div_rem (w : Z) := i_repr_div_rem w.
+Definition wx_repr_div (w : Z) := i_repr_div w.
+Definition wx_repr_rem (w : Z) := i_repr_rem w.
+Definition wx_const_div_rem (w : Z) := i_const_div_rem w.
+Definition wx_const_rem (w : Z) := i_const_rem w.
+Definition wx_kernel_asis (w : Z) := kernel_asis w.
+Definition w_kernel_spec (w : Z) := kernel_spec w.
+Definition w_typed_values (w : Z) := typed_values w.
+Definition w_is_multiple_of_const (w : Z) := is_multiple_of_const_asis w (nm1by1 w) (nm2by1 w) (nm2by2 w) (nm3by2 w) (nm4by2 w).
+Definition w_rem_idx (w m d : Z) : result Z :=
+  if d <? 2 ^ w then rem_by_word_idx w (nm1by1 w) (nm2by1 w) (words_of w m) d
+  else rem_by_dword_idx w (nm2by2 w) (nm3by2 w) (nm4by2 w) (words_of w m) d.
+(** round 4: entry points built ONLY from the kernels regenerated from the source (coq/gen/DivKernelsGen.v, DivReprGen.v;
+    = the hand models by the C02_gen theorems), and the construction of a ConstDivisor with its stored fields (Int/DivConstNew.v) *)
+Definition gw_div_rem_small := g_div_rem_small.
+Definition gw_rem_small := g_rem_small.
+Definition gw_div_rem_large := g_div_rem_large.
+Definition gw_div_large := g_div_large.
+Definition gw_rem_large := g_rem_large.
+Definition gw_kernel := g_kernel.
+Definition gw_const_fields := g_const_fields.
+Definition gw_const_from := g_const_from.
+
 Extraction "model.ml"
+  w_repr_div_rem w_repr_div w_repr_rem w_const_div_rem w_const_rem w_kernel_asis wx_repr_div_rem wx_repr_div wx_repr_rem
+  wx_const_div_rem wx_const_rem wx_kernel_asis w_kernel_spec w_typed_values w_is_multiple_of_const w_rem_idx
+  gw_div_rem_small gw_rem_small gw_div_rem_large gw_div_large gw_rem_large gw_kernel gw_const_fields gw_const_from
   form_spec ibig_form_asis ubig_form_asis ubig_ibig_form_asis ibig_ubig_form_asis
   const_ubig_form_asis const_ibig_form_asis div_threshold_simple
   m_repr_div_rem m_repr_div m_repr_rem m_const_div_rem m_const_rem m_kernel_asis m_kernel_spec
